@@ -36,6 +36,26 @@ Theorem C16_apply_keeps_prefix : forall change rest (f : file) k,
 Proof. exact apply_keeps_prefix. Qed.
 Print Assumptions C16_apply_keeps_prefix.
 
+(* ... and so are the lines after the last deleted one: the result is
+   (the first max_line lines minus the deleted ones) ++ additions ++ (the lines after max_line),
+   for every replacement whose deleted line numbers are distinct and in range *)
+Theorem C16_apply_shape : forall change rest (f : file) adds,
+  r_add change = Some adds -> r_del change <> [] -> NoDup (r_del change) ->
+  (forall d, In d (r_del change) -> 1 <= d <= length f) ->
+  exists pre,
+    Fixer.apply_changes (change :: rest) f = pre ++ adds ++ skipn (list_max (r_del change)) f
+    /\ length pre = list_max (r_del change) - length (r_del change).
+Proof. exact apply_shape. Qed.
+Print Assumptions C16_apply_shape.
+
+Theorem C16_apply_keeps_suffix : forall change rest (f : file) adds,
+  r_add change = Some adds -> r_del change <> [] -> NoDup (r_del change) ->
+  (forall d, In d (r_del change) -> 1 <= d <= length f) ->
+  skipn (list_max (r_del change) - length (r_del change) + length adds) (Fixer.apply_changes (change :: rest) f)
+  = skipn (list_max (r_del change)) f.
+Proof. exact apply_keeps_suffix. Qed.
+Print Assumptions C16_apply_keeps_suffix.
+
 (* the add-ignore replacement is exactly: insert the comment line above the reported line *)
 Theorem C16_add_ignore_is_insertion : forall f ln c rest, 1 <= ln <= length f ->
   Fixer.apply_changes (Fixer.add_ignore_repl IGN nm f ln c :: rest) f
